@@ -520,9 +520,9 @@ Definition ent_node (t : etree) : node :=
   let a := ent_addr (et_kind t) (et_uid t) in
   {| n_attrs := et_attrs t; n_data := None;
      n_links := (KType, type_addr (et_kind t) (et_ty t))
-                :: map (fun d : key * N => (fst d, a ++ [fst d])) (et_dsets t)
-                ++ (match et_pgs t with Some _ => [(KPGs, a ++ [KPGs])] | None => [] end)
-                ++ map (fun ck => (flat_key ck, a ++ [flat_key ck])) (et_conts t) |}.
+                :: (match et_pgs t with Some _ => [(KPGs, a ++ [KPGs])] | None => [] end)
+                ++ map (fun ck => (flat_key ck, a ++ [flat_key ck])) (et_conts t)
+                ++ map (fun d : key * N => (fst d, a ++ [fst d])) (et_dsets t) |}.
 
 Definition type_node (k : ekind) (t : N) (ts : tspec) : node :=
   {| n_attrs := ts_attrs ts; n_data := None;
@@ -738,6 +738,7 @@ Definition ent_ok (s : fspec) (t : etree) : bool :=
   && (match et_kind t, et_pgs t with KObject, _ => true | _, None => true | _, Some _ => false end)
   && forallb (fun d : key * N => dset_key_ok (et_kind t) (fst d)) (et_dsets t)
   && nodup_keys (et_dsets t)
+  && (match et_pgs t with Some p => nodup_keys p | None => true end)
   && type_ok s t.
 
 Definition wfb (s : fspec) : bool :=
